@@ -113,6 +113,11 @@ def install():
                     if rec['final'] is not None:
                         _viol('second_terminal_transition', f'order went {rec["final"]} and later {new}', order)
                     rec['final'] = new
+                    try:
+                        from jesse.store import store as _st
+                        rec['final_t'] = _st.app.time
+                    except Exception:
+                        rec['final_t'] = None
                     if new == 'EXECUTED':
                         M['executed'].append(order)
                     M['ops'].append((kind, order.type, st))
@@ -164,7 +169,7 @@ def _viol(key, msg, order=None):
 
 def begin():
     install()
-    M.update(on=True, cnt={}, viol=[], keys=set(), rec={}, added=[], executed=[], ops=[], injecting=False)
+    M.update(on=True, cnt={}, viol=[], keys=set(), rec={}, added=[], executed=[], ops=[], injecting=False, prev_before={})
 
 
 def quiescent_checks(full=False):
@@ -230,6 +235,22 @@ def inject(rng, n=2):
 def hook_monitor(strategy, hook, ev):
     if not M['on'] or not M.get('session'):
         return
+    if hook == 'before':
+        # the list itself (not only its ACTIVE members): whatever was final before this route's previous step has been through
+        # at least one pruning of this symbol's list since
+        from jesse.store import store
+        now = store.app.time
+        prev_t = M.setdefault('prev_before', {}).get(id(strategy))
+        M['prev_before'][id(strategy)] = now
+        if prev_t is not None:
+            M['cnt']['raw_active_list_checks'] = M['cnt'].get('raw_active_list_checks', 0) + 1
+            for o in store.orders.get_active_orders(strategy.exchange, strategy.symbol):
+                rec = M['rec'].get(id(o))
+                if rec and rec.get('final') is not None and rec.get('final_t') is not None and rec['final_t'] < prev_t:
+                    _viol('final_order_still_in_the_active_list_after_a_full_step',
+                          f'{strategy.symbol}: {o.type} {o.side} {o.price} has been {rec["final"]} since {rec["final_t"]} but is still '
+                          f'in the list of active orders at {now} (previous step of this route at {prev_t})', o)
+                    break
     if hook in ('before', 'after', 'terminate'):
         quiescent_checks(full=(hook == 'terminate' or strategy.index % 50 == 49))
     elif hook in ('on_open_position', 'on_close_position', 'on_increased_position', 'on_reduced_position'):
